@@ -865,9 +865,14 @@ Definition resume (s0 : st) (t : tid) (fo : option fid) : st * res :=
       (set_running (park s1 t) None, res_of_inc inc)
   | CYield YCheckpoint => ret_to_puppet s t (res_of_inc inc)
   | CYield YCkIf =>
+      (* after `await sleep(0)`: re-read the task's own scope and walk again (F46); return once nothing cancelled is
+         visible any more *)
       match inc with
       | Some e => ret_to_puppet s t (RExc e)
-      | None => blocked (bare_yield s t)
+      | None =>
+          if ckif_spins (nscope s) s (k_cur (tasks s t))
+          then blocked (bare_yield s t)
+          else ret_to_puppet s t (RRet 0)
       end
   | CYield (YShield c) =>
       let '(s1, x) := scope_exit s c t inc in
